@@ -64,7 +64,18 @@ class CustomError(Exception):
     pass
 
 
-EXC_TYPES = {c.__name__: c for c in (ValueError, KeyError, TypeError, AssertionError, RuntimeError, CustomError,
+class BadReprError(Exception):
+    """an exception that cannot be rendered: whatever the server does with a method's exception besides mapping it to -32000
+    (logging, formatting) must not change the answer"""
+
+    def __repr__(self):
+        raise RuntimeError('repr of the exception failed')
+
+    def __str__(self):
+        raise RuntimeError('str of the exception failed')
+
+
+EXC_TYPES = {c.__name__: c for c in (BadReprError, ValueError, KeyError, TypeError, AssertionError, RuntimeError, CustomError,
                                      AttributeError, ZeroDivisionError, LookupError, OSError, StopIteration, NotImplementedError)}
 EXC_TYPES['ValidationError'] = validators.ValidationError
 # the library's own non-protocol exceptions escaping from a method body (a gateway method using a pjrpc client)
